@@ -237,6 +237,7 @@ class LabelSim:
         self.shared_time_or_task = False
         self.names: Dict[str, str] = {}
         self.name_clash = False
+        self.shared_default = False
 
     def close(self) -> None:
         self.loop.close()
@@ -258,6 +259,10 @@ class LabelSim:
         self.ops.append(op)
         o = op["op"]
         if o == "setup":
+            if op.get("shared_default"):
+                # the documented way to make shared tasks kickable: they are sent THROUGH the own broker, but still are tasks of the shared one
+                self.shared.default_broker(self.broker)
+                self.shared_default = True
             first_own = next((f"task{ti}" for ti, t in enumerate(op["tasks"]) if t["where"] == "own"), None)
             for ti, t in enumerate(op["tasks"]):
                 name = key_ = f"task{ti}"
@@ -360,7 +365,7 @@ def run_label_history(case: Dict[str, Any]) -> Outcome:
 def finish(sim: LabelSim, out: Outcome) -> None:
     out.nontrivial = bool(sim.shared_time_or_task and sim.fired)
     out.classes = [c for c, f in (("fired", sim.fired), ("shared_time_or_task", sim.shared_time_or_task),
-                                  ("shared_broker_task", any(t.broker is sim.shared for t in sim.tasks)), ("shared_task_with_own_name", sim.name_clash),
+                                  ("shared_broker_task", any(t.broker is sim.shared for t in sim.tasks)), ("shared_task_with_own_name", sim.name_clash), ("shared_broker_defaults_to_own", sim.shared_default),
                                   ("stale_fire", sim.fired >= 2 and len(sim.listings) >= 1)) if f]
     out.trace = {"ops": len(sim.ops), "fired": sim.fired, "listings": len(sim.listings)}
 
@@ -377,9 +382,9 @@ def make_machine(ctx: Any, ctx_state: Dict[str, Any]) -> Any:
             self.sim.apply(op, out)
             engine.machine_report(ctx, ctx_state, {"part": "label_source", "ops": list(self.sim.ops)}, out, final=False)
 
-        @initialize(tasks=setup_strategy())
-        def setup(self, tasks: Any) -> None:
-            self._step({"op": "setup", "tasks": tasks})
+        @initialize(tasks=setup_strategy(), shared_default=st.sampled_from([False, False, True]))
+        def setup(self, tasks: Any, shared_default: bool) -> None:
+            self._step({"op": "setup", "tasks": tasks, "shared_default": shared_default})
 
         @rule()
         def list_(self) -> None:
